@@ -13,6 +13,7 @@ package main
 // nasctor {"name":..,args} -> bytes of the nasTestpacket constructor the emulator calls
 
 import (
+	"tglib"
 	"fmt"
 	"reflect"
 
@@ -317,6 +318,19 @@ func init() {
 			b = nasTestpacket.GetDeregistrationRequest(u8("access"), u8("switchoff"), u8("ngksi"), mobid())
 		default:
 			panic("harness: unknown constructor " + str(in, "name"))
+		}
+		if str(in, "name") == "GetRegistrationRequest" {
+			// as RegisterUE sends it: through tglib.EncodeNasPduWithSecurity without a security context (decode + plain re-encode)
+			ue := tglib.NewRanUeContext("imsi-208930000000003", 1, 0, 2)
+			if b2, err := tglib.EncodeNasPduWithSecurity(ue, b, nas.SecurityHeaderTypePlainNas, false, false); err == nil {
+				b = b2
+				// ... and another UE prepares its own message the same way before this one is used (main() prepares and
+				// sends per UE, a caller holding two prepared messages is just as legitimate)
+				ue2 := tglib.NewRanUeContext("imsi-208930000000004", 2, 0, 2)
+				tglib.EncodeNasPduWithSecurity(ue2, nasTestpacket.GetRegistrationComplete([]byte{1, 2, 3, 4, 5, 6, 7, 8, 9, 10, 11, 12, 13, 14, 15, 16, 17}), nas.SecurityHeaderTypePlainNas, false, false)
+			} else {
+				return map[string]interface{}{"bytes": "", "err": err.Error()}
+			}
 		}
 		out := map[string]interface{}{"bytes": hx(b)}
 		retain(out, "nasctor", b) // the message built by the previous call must still read the same after this one
